@@ -12,6 +12,7 @@
 import ClientGoVerif.Proofs.MvccInv
 import ClientGoVerif.Proofs.MvccReach
 import ClientGoVerif.Proofs.MvccTemporal
+import ClientGoVerif.Proofs.MvccExec
 namespace CGV.Props.C12
 open CGV CGV.Mvcc
 
@@ -158,6 +159,13 @@ theorem reachable_store_wellformed (s : Store) (h : Reachable s) :
 theorem every_command_refines_key_steps (s : Store) (c : Cmd) (hs : SInv s) (hok : c.Ok s) :
     KvSorted (c.run s).kv ∧ ∀ k, ∃ lab, c.labels k lab ∧ KStep (getEntry s.kv k) lab (getEntry (c.run s).kv k) :=
   run_refines s c hs hok
+
+/-- the tie between the theorems and what is run: `MvccProto.exec`, the step function of the compiled driver that the
+    differential compares with mocktikv line by line, leaves the store unchanged (reads, dumps) or applies exactly one
+    `Cmd` — so every theorem about `Cmd.run` / `runAll` / `Reachable` is a theorem about the driver's states -/
+theorem driver_step_is_a_command (s : Store) (w : List String) (s' : Store) (out : String)
+    (h : MvccProto.exec s w = some (s', out)) : s' = s ∨ ∃ c : Cmd, s' = c.run s :=
+  exec_state s w s' out h
 
 /-- in every reachable state a transaction has at most one record on a key -/
 theorem reachable_one_record_per_txn (s : Store) (h : Reachable s) (k : Bytes) : Uniq (getEntry s.kv k).writes := h.uniq k
